@@ -1,6 +1,7 @@
 package main
 
 import (
+	"sync/atomic"
 	"context"
 	"encoding/json"
 	"fmt"
@@ -39,6 +40,9 @@ type c07Input struct {
 	Scan   int64      `json:"scan"`   // rows the first statement yields
 	Stages []c07Stage `json:"stages"` // abstract shape of the remaining statements on this graph family
 	Cancel int64      `json:"cancel"` // cancel the context after this many rows; -1: never
+	// upper bound on the cursor advances (Next calls on store iterators) the run may cause: a satisfied limit must stop the
+	// scan behind it after at most what the channels between them hold; 0 = not bounded
+	NextBound int64 `json:"next_bound,omitempty"`
 }
 type c07Obs struct {
 	Closed   bool   `json:"closed"`
@@ -46,9 +50,27 @@ type c07Obs struct {
 	Leak     int    `json:"goroutines_leaked"`
 	Tmp      int    `json:"temp_entries_left"`
 	Millis   int64  `json:"ms"`
+	Nexts    int64  `json:"cursor_advances"`
 	Err      string `json:"err,omitempty"`
 	Isolated string `json:"isolated,omitempty"`
 }
+
+// a store wrapper that counts cursor advances
+type countKV struct {
+	kvi.KVInterface
+	n *int64
+}
+type countIt struct {
+	kvi.KVIterator
+	n *int64
+}
+
+func (c countIt) Next() error { atomic.AddInt64(c.n, 1); return c.KVIterator.Next() }
+func (c countKV) View(f func(it kvi.KVIterator) error) error {
+	return c.KVInterface.View(func(it kvi.KVIterator) error { return f(countIt{it, c.n}) })
+}
+
+var cursorAdvances int64
 
 var pipeEnv struct {
 	spec c07Graph
@@ -64,10 +86,11 @@ func pipeGraph(spec c07Graph) (gdbi.GraphInterface, error) {
 	// the previous store is left open: goroutines of a pipeline that never finished may still read it
 	pipeEnv.gi = nil
 	dir, _ := os.MkdirTemp(os.Getenv("C07ROOT"), "c07g")
-	kv, err := kvi.NewKVInterface("badger", dir+"/db", nil)
+	kv0, err := kvi.NewKVInterface("badger", dir+"/db", nil)
 	if err != nil {
 		return nil, err
 	}
+	kv := countKV{kv0, &cursorAdvances}
 	db := kvgraph.NewKVGraph(kv)
 	db.AddGraph("g")
 	gi, err := db.Graph("g")
@@ -77,7 +100,12 @@ func pipeGraph(spec c07Graph) (gdbi.GraphInterface, error) {
 	vs := []*gdbi.Vertex{}
 	es := []*gdbi.Edge{}
 	mk := func(id string, c int) *gdbi.Vertex {
-		s, _ := structpb.NewStruct(map[string]interface{}{"c": float64(c % 7)})
+		// "age": numeric, except one vertex in 997 (and vertex 1) whose value is text: aggregations must skip it and go on
+		var age interface{} = float64(c % 90)
+		if c%997 == 1 {
+			age = "unknown"
+		}
+		s, _ := structpb.NewStruct(map[string]interface{}{"c": float64(c % 7), "age": age})
 		return gdbi.NewElementFromVertex(&gripql.Vertex{Gid: id, Label: "N", Data: s})
 	}
 	switch spec.Kind {
@@ -148,6 +176,7 @@ func pipeWorker(req json.RawMessage) interface{} {
 	ctx, cancel := context.WithCancel(context.Background())
 	defer cancel()
 	start := time.Now()
+	atomic.StoreInt64(&cursorAdvances, 0)
 	res := pipeline.Run(ctx, pipe, wd)
 	ob := c07Obs{}
 	dl := 25
@@ -177,6 +206,7 @@ loop:
 	}
 	ob.Millis = time.Since(start).Milliseconds()
 	if ob.Closed {
+		ob.Nexts = atomic.LoadInt64(&cursorAdvances)
 		ob.Leak = settle(base, 3*time.Second)
 		if ob.Leak < 0 {
 			ob.Leak = 0
@@ -214,6 +244,13 @@ func c07Inputs(ctx *Ctx) []c07Input {
 			add([]tStmt{{Op: "E"}, st("both")}, N*int64(d), []c07Stage{fan(2)})
 			add([]tStmt{V, st("outE"), st("out")}, N, []c07Stage{fan(d), fan(1)})
 			add([]tStmt{V, st("both"), {Op: "limit", N: 10}}, N, []c07Stage{fan(2 * d), {"limit", 10}})
+			if n >= 5001 {
+				// the scan must stop soon after the limit is satisfied: what it may still read is bounded by the channels
+				// between the steps (100 rows each), far below the size of the graph
+				out[len(out)-1].NextBound = 12000 // a scan that does not stop costs > 20000 here (5001 vertices, each looked up in both directions)
+				out = append(out, c07Input{Graph: g, Prog: []tStmt{V, {Op: "limit", N: 10}}, Scan: N, Stages: []c07Stage{{"limit", 10}}, Cancel: -1, NextBound: 1500},
+					c07Input{Graph: g, Prog: []tStmt{{Op: "E"}, {Op: "limit", N: 7}}, Scan: N * int64(d), Stages: []c07Stage{{"limit", 7}}, Cancel: -1, NextBound: 1500})
+			}
 			add([]tStmt{V, st("both"), st("count")}, N, []c07Stage{fan(2 * d), {"count", 0}})
 			add([]tStmt{V, st("both"), st("distinct")}, N, []c07Stage{fan(2 * d), {"exactly", N}})
 			terms := int64(7)
@@ -221,6 +258,12 @@ func c07Inputs(ctx *Ctx) []c07Input {
 				terms = N
 			}
 			add([]tStmt{V, st("both"), {Op: "aggregate", Aggs: []tAgg{{Name: "t", Kind: "term", Field: "c"}}}}, N, []c07Stage{fan(2 * d), {"exactly", terms}})
+			if n >= 99 {
+				// aggregations that meet a value they cannot use long before the end of their input (1000-slot fan-out)
+				add([]tStmt{V, st("both"), {Op: "aggregate", Aggs: []tAgg{{Name: "p", Kind: "percentile", Field: "age", Percents: []float64{50}}}}}, N, []c07Stage{fan(2 * d), {"exactly", 1}})
+				add([]tStmt{V, st("both"), {Op: "aggregate", Aggs: []tAgg{{Name: "p", Kind: "percentile", Field: "age", Percents: []float64{10, 90}}, {Name: "t", Kind: "term", Field: "c"}}}}, N, []c07Stage{fan(2 * d), {"exactly", 2 + terms}})
+				add([]tStmt{V, st("both"), {Op: "aggregate", Aggs: []tAgg{{Name: "h", Kind: "histogram", Field: "age", Interval: 30}}}}, N, []c07Stage{fan(2 * d), {"exactly", 3}})
+			}
 			if n <= 2300 {
 				add([]tStmt{V, st("both"), st("both")}, N, []c07Stage{fan(2 * d), fan(2 * d)})
 				add([]tStmt{V, st("bothE"), st("both"), st("bothE")}, N, []c07Stage{fan(2 * d), fan(2), fan(2 * d)})
@@ -266,7 +309,7 @@ func runC07(ctx *Ctx) error {
 	ctx.Shard = 400
 	ctx.Scope = "N_scope"
 	ctx.Exhaustive = true
-	ctx.Rule = "grid: circulant graphs (N vertices, out-degree d in {1,3}) with N in {0,1,99,101,1001,2300,5001} (thorough adds 100,999,1000,2001,5000,12000,26000: below, at and several multiples above every internal capacity 100/1000/5000) x 12 cycle-free programs (scan, out, both, bothE, E.both, outE.out, both.limit, both.count, both.distinct, both.aggregate, both.both, bothE.both.bothE) and star graphs (hub with M leaves, M in {1,300,999,1001,2300,5001,7500}; thorough 1000,2001,12000,30000) x 9 programs that fan one traveler out into M (two of them with a limit behind the fan-out); cancellation after 0/1/150/5001/10 rows on the large ones; each run through the production compiler and pipeline.Run on badger in a worker sub-process with a 25 s deadline; observed: stream closed, rows, goroutines above the pre-run baseline after settling, entries left in the work directory; non-trivial = more rows than the smallest internal buffer (100); distinct by input"
+	ctx.Rule = "grid: circulant graphs (N vertices, out-degree d in {1,3}) with N in {0,1,99,101,1001,2300,5001} (thorough adds 100,999,1000,2001,5000,12000,26000: below, at and several multiples above every internal capacity 100/1000/5000) x 15 cycle-free programs (scan, out, both, bothE, E.both, outE.out, both.limit, both.count, both.distinct, both.aggregate(term), both.aggregate(percentile / percentile+term / histogram over a field that holds text on one vertex in 997), both.both, bothE.both.bothE) and star graphs (hub with M leaves, M in {1,300,999,1001,2300,5001,7500}; thorough 1000,2001,12000,30000) x 9 programs that fan one traveler out into M (two of them with a limit behind the fan-out); cancellation after 0/1/150/5001/10 rows on the large ones; each run through the production compiler and pipeline.Run on badger in a worker sub-process with a 25 s deadline; observed: stream closed, rows, goroutines above the pre-run baseline after settling, entries left in the work directory, cursor advances on the store (bounded for limit programs on the large graphs: a satisfied limit stops the scan behind it); non-trivial = more rows than the smallest internal buffer (100); distinct by input"
 	var inputs []c07Input
 	if ctx.Replay != nil {
 		var in c07Input
@@ -342,8 +385,13 @@ func runC07(ctx *Ctx) error {
 		if in.Cancel >= 0 {
 			cancel = fmt.Sprintf("(Some %d)", in.Cancel)
 		}
+		nb := "None"
+		if in.NextBound > 0 {
+			nb = fmt.Sprintf("(Some %d)", in.NextBound)
+		}
 		cc := coq.Record("c_scan", fmt.Sprint(in.Scan), "c_stages", coq.List(stages), "c_cancel", cancel,
-			"o_closed", coq.Bool(ob.Closed), "o_rows", fmt.Sprint(ob.Rows), "o_leak", fmt.Sprint(ob.Leak), "o_tmp", fmt.Sprint(ob.Tmp))
+			"o_closed", coq.Bool(ob.Closed), "o_rows", fmt.Sprint(ob.Rows), "o_leak", fmt.Sprint(ob.Leak), "o_tmp", fmt.Sprint(ob.Tmp),
+			"o_nexts", fmt.Sprint(ob.Nexts), "c_next_bound", nb)
 		key, _ := json.Marshal(in)
 		tags := []string{"graph=" + in.Graph.Kind, fmt.Sprintf("closed=%v", ob.Closed), fmt.Sprintf("cancel=%v", in.Cancel >= 0)}
 		ctx.Add(Case{Input: in, Observed: ob, Coq: cc, Nontrivial: ob.Rows > 100 || in.Scan > 100, Key: string(key), Tags: tags})
